@@ -18,6 +18,7 @@
     (d) convolution_chain             transform, pointwise product, inverse transform, scaling ≡ the acyclic convolution
         mul_trunc_sqrt2_val           limbs → split → … → combine = the product, under `FftParams.Sound`
         mul_fft_main_nonmfa_val       … hence for the parameters mpn_mul_fft_main selects (non-MFA path)
+    MFA: fft_radix2_twiddle_bitrev_dft, mfa_passes_partial (column pass + row pass = the plain DFT permuted)
 -/
 import MpirProofs.Lemmas.FftXMul
 import MpirProofs.Lemmas.FftXMfa
@@ -158,6 +159,52 @@ example : TruncSOk 6 130 := by unfold TruncSOk; decide
 example : let x := (List.range 130).map (fun i => ((i : Int) + 1) * 12345) ++ List.replicate 126 0
     ((ifft_trunc_sqrt2 6 1 130 ((fft_trunc_sqrt2 6 1 130 x).take 130 ++ List.replicate 126 9)).take 130).map
       (fun v => v * 2 ^ (128 - 8) % pOf 64) = x.take 130 := by decide +kernel
+
+/-! ### the matrix Fourier (MFA) variants — partial
+
+The models of mpir_fft_radix2_twiddle / mpir_fft_trunc1_twiddle / mpir_fft_mfa_trunc_sqrt2 and their inverses exist
+(Model/FftX.lean) and are run against the library on every check (`fftx_mfa`, `fftx_imfa`: every n1, every trunc).
+Proved here: what the twiddled column transform computes, and that the column pass followed by the row pass — the
+model's own functions on the extracted columns / rows — leaves the DFT in the permutation (row j, column t) ↦
+frequency j + n2·t, i.e. the value the plain radix-2 transform has at position rev(j + n2·t).
+
+Full statement (not proved):  for TruncSOk d trunc, 2·n1 ∣ trunc, n1 = 2^(e1+1) ≤ n, inputs zero from `trunc` on:
+  el (fft_mfa_trunc_sqrt2 d w n1 trunc xs) (j·n1 + t) = el (fft_full_sqrt2 d w xs) (rev (d+1) (j + n2·t))  modulo p
+  for j < n2, t < n1 in the first half, and the same with offset 2n for the rows j = rev s, s < trunc2, of the second;
+  and ifft_mfa_trunc_sqrt2 inverts it (4n-fold).
+Missing: the strided plumbing of the model (foldl over columns with getCol/setCol, onRows), the truncated column
+transform mpir_fft_trunc1_twiddle (the twiddled analogue of `fft_trunc1_prefix`) and the inverse direction. -/
+
+/-- mpir_fft_radix2_twiddle (2n entries of a column, shift w, ws = bits of z, r = first row, c = column, rs = row step):
+    position rev(i) holds the DFT value of frequency i times 2^((r + rs·i)·c·ws).  With r = 0, rs = 1 that is the
+    twiddle z^(i·c) between the column and the row pass. -/
+theorem fft_radix2_twiddle_bitrev_dft (d w ws r c rs : Nat) (xs : List Int) (i : Nat) (hi : i < 2 ^ (d + 1)) :
+    el (fft_radix2_twiddle d w ws r c rs xs) (rev (d + 1) i) ≡
+      (∑ j ∈ range (2 ^ (d + 1)), el xs j * (2 ^ w) ^ (i * j)) * 2 ^ ((r + rs * i) * c * ws) [ZMOD pOf (2 ^ d * w)] := by
+  apply toZ
+  rw [fft_radix2_twiddle_dft _ d w ws r c rs xs (zmod_two_pow _) _ (rev_lt _ _), rev_rev _ _ hi, map_mul, map_sum]
+  congr 1
+  · apply sum_congr rfl; intro j _
+    simp only [map_mul, map_pow]
+  · simp only [map_pow]
+
+example : (el (fft_radix2_twiddle 1 32 4 0 3 1 [1, 2, 3, 4]) (rev 2 1) -
+    (1 + 2 * 2 ^ 32 + 3 * (2 ^ 32) ^ 2 + 4 * (2 ^ 32) ^ 3) * 2 ^ (1 * 3 * 4)) % pOf 64 = 0 := by decide +kernel
+
+/-- column pass then row pass of the matrix Fourier transform (n1 = 2^(e1+1) columns, n2 = 2^(e2+1) rows, the model's
+    mpir_fft_radix2_twiddle / mpir_fft_radix2 / revbin swaps applied to the extracted columns and rows): row j,
+    column t ends up with the value that the plain mpir_fft_radix2 of the same n1·n2 coefficients leaves in position
+    rev(j + n2·t) — the same DFT, in a different permutation. -/
+theorem mfa_passes_partial (e1 e2 w : Nat) (xs : List Int) (j t : Nat) (hj : j < 2 ^ (e2 + 1)) (ht : t < 2 ^ (e1 + 1)) :
+    el (mfaRow e1 e2 w xs j) t ≡
+      el (fft_radix2 (e1 + e2 + 1) w xs) (rev (e1 + e2 + 2) (j + 2 ^ (e2 + 1) * t)) [ZMOD pOf (2 ^ (e1 + e2 + 1) * w)] :=
+  toZ _ (mfa_passes _ e1 e2 w xs (zmod_two_pow _) j t hj ht)
+
+-- non-vacuity: 16 coefficients as a 4 × 4 matrix modulo 2^64+1 (w = 8)
+example : let x : List Int := [3, 1, 4, 1, 5, 9, 2, 6, 5, 3, 5, 8, 9, 7, 9, 3]
+    (List.range 4).flatMap (fun j => (mfaRow 1 1 8 x j).map (· % pOf 64)) =
+      (List.range 4).flatMap (fun j => (List.range 4).map fun t =>
+        el (fft_radix2 3 8 x) (rev 4 (j + 4 * t)) % pOf 64) := by decide +kernel
 
 /-! ### (d) the convolution theorem as the multiplier uses it -/
 
